@@ -30,6 +30,7 @@ type specEnv struct {
 	depth  int
 	oldEnv *specEnv
 	hdrEnv *specEnv
+	preSt  *State // state on entry to the loop whose invariant is being evaluated: pre(e)
 	witFr  *Frame // frame whose loop variables serve as existential witness hints (survives macro expansion)
 	atInside bool // `at` denotes a point inside the block (after its phis and earlier instructions), not its start
 	lastQFacts []Term // heap typing facts about the terms of the most recent quantifier body
@@ -763,6 +764,17 @@ func (e *specEnv) call(n *ast.CallExpr) (SVal, error) {
 			ae.vars["callresult"] = r
 		}
 		return ae.eval(n.Args[1])
+	case "pre":
+		// pre(e): e evaluated in the heap as it was when the loop was entered (only in loop invariants)
+		if e.preSt == nil {
+			return SVal{}, fmt.Errorf("pre() is only available in loop invariants")
+		}
+		if err := need(1); err != nil {
+			return SVal{}, err
+		}
+		pe := e.child()
+		pe.st = e.preSt
+		return pe.eval(n.Args[0])
 	case "hdr":
 		if e.hdrEnv == nil {
 			return SVal{}, fmt.Errorf("hdr() is only available in loop step clauses")
@@ -1493,5 +1505,10 @@ func (e *specEnv) evalGoal(x ast.Expr) (Term, error) {
 			e.oldEnv.hints = false
 		}
 	}()
-	return e.evalBool(x)
+	t, err := e.evalBool(x)
+	if err == nil {
+		// instantiation points for the universally quantified facts of the path: the loop indices in scope
+		e.fx.hintTerms = e.witnessCandidates()
+	}
+	return t, err
 }
